@@ -120,6 +120,9 @@ func (fc *FuncCtx) evalCall(st *State, call *ast.CallExpr) []Term {
 		fc.fail(call, "no contract for callee %s", key)
 	}
 	fc.usedContracts[key] = true
+	if fc.w.ReflectReads[key] {
+		fc.reflectReads(st, call)
+	}
 	return fc.applyContract(st, call, fn, recvExpr, c)
 }
 
